@@ -41,17 +41,20 @@ class C19(Harness):
         return {'micro_depth': 4 if tier == 'quick' else 5, 'macro_depth': 8 if tier == 'quick' else 10, 'times': '0..3 (never negative)'}
 
     def configs(self, tier):
-        return [{'slice': 'micro'}, {'slice': 'macro'}]
+        return [{'slice': 'micro'}, {'slice': 'macro'}, {'slice': 'gseed'}]
 
     def depth(self, tier, cfg):
         if cfg['slice'] == 'macro':
             return 8 if tier == 'quick' else 10
+        if cfg['slice'] == 'gseed':
+            return 4 if tier == 'quick' else 6
         return 4 if tier == 'quick' else 5
 
     def fresh(self):
         import param
         import numbergen as ng
         reset_globals()
+        param.random_seed = 42
         param.Dynamic.time_dependent = True
         t = param.Dynamic.time_fn
         t._pushed_state = []
@@ -83,6 +86,14 @@ class C19(Harness):
             if model['ctx']:
                 ops.append(['close'])
                 ops.append(['close_exc'])
+                ops.append(['close_stop'])
+            return ops
+        if cfg['slice'] == 'gseed':
+            # the global param.random_seed was set after the classes and instances were built and before anything is read (it is not changed
+            # between reads: at an unchanged time a read returns the cached value by the statement's first clause); small alphabet
+            ops = [['jump', 0], ['jump', 2], ['inc'], ['read', 0, 'a'], ['read', 1, 'a'], ['read', 0, 'b'], ['read', 0, 'c']]
+            if model['time'] > 0:
+                ops.append(['dec'])
             return ops
         ops = [['jump', 0], ['jump', 2], ['inc'], ['read', 0, 'a'], ['read', 1, 'a'], ['read', 0, 'b'], ['read', 0, 'c'], ['read', 1, 'd'], ['read', 0, 'e'], ['read', 0, 'f'],
                ['inspect', 0, 'a'], ['inspect', 1, 'a'], ['push', 0], ['push', 1]]
@@ -93,6 +104,7 @@ class C19(Harness):
         if model['ctx']:
             ops.append(['close'])
             ops.append(['close_exc'])
+            ops.append(['close_stop'])
         for i in (0, 1):
             if model['saved'][i]:
                 ops.append(['pop', i])
@@ -101,7 +113,9 @@ class C19(Harness):
     def execute(self, cfg, history):
         w = self.fresh()
         param, t = w['param'], w['t']
-        model = {'time': 0, 'ctx': [], 'table': {}, 'last': [{}, {}], 'saved': [[], []]}
+        model = {'time': 0, 'ctx': [], 'table': {}, 'last': [{}, {}], 'saved': [[], []], 'gseed': 42}
+        if cfg['slice'] == 'gseed':
+            param.random_seed = model['gseed'] = 43
         vs = []
         hits = {}
         fp_pre = None
@@ -113,7 +127,7 @@ class C19(Harness):
                     for i in (0, 1):
                         for pn in ('a', 'c'):
                             v = getattr(w['i'][i], pn)
-                            key = (GENS[pn], T)
+                            key = (GENS[pn], T, model['gseed'])
                             if model['table'].setdefault(key, v) != v:
                                 vs.append(V('pure-function-of-time', 'warm-up: instance %d %s at time %r gave %r, other instance gave %r' % (i, pn, T, v, model['table'][key]), gen=pn, after='warmup'))
                             model['last'][i][pn] = v
@@ -129,7 +143,7 @@ class C19(Harness):
                     t(op[1])
                     model['time'] = op[1]
                     v = getattr(w['i'][0], 'a')
-                    key = (GENS['a'], op[1])
+                    key = (GENS['a'], op[1], model['gseed'])
                     hits['revisit'] = 1
                     if last and model['table'][key] != v:
                         vs.append(V('pure-function-of-time', '%s: a at time %r gave %r, but the value first produced for that name/seed/time was %r' % (
@@ -147,6 +161,11 @@ class C19(Harness):
                 elif k == 'close':
                     t.__exit__(None, None, None)
                     model['time'] = model['ctx'].pop()
+                elif k == 'close_stop':
+                    # the block is left through a StopIteration (a bare next() past `until`): swallowed by the context, which still restores the time
+                    e = StopIteration()
+                    t.__exit__(StopIteration, e, None)
+                    model['time'] = model['ctx'].pop()
                 elif k == 'close_exc':
                     e = KeyError('the block is left through an exception')
                     t.__exit__(KeyError, e, None)
@@ -159,7 +178,7 @@ class C19(Harness):
                             return 'EXC:' + type(e).__name__
                     v = rd()
                     v2 = rd()
-                    key = (GENS[op[2]], model['time'])
+                    key = (GENS[op[2]], model['time'], model['gseed'])
                     hits['read'] = 1
                     if last and v2 != v:
                         vs.append(V('repeated-read', '%s: two reads of %s at time %r gave %r then %r' % (ctx, op[2], model['time'], v, v2), gen=op[2]))
@@ -195,13 +214,13 @@ class C19(Harness):
             fp_pre = None
             if not vs:
                 fp_pre = try_fingerprint([('t', t), ('i0', w['i'][0]), ('i1', w['i'][1])],
-                                         extra=repr((model['time'], model['ctx'], sorted(model['table'], key=repr), model['last'], model['saved'])))
+                                         extra=repr((model['time'], model['gseed'], model['ctx'], sorted(model['table'], key=repr), model['last'], model['saved'])))
             # closing probe: every generator read now must agree with the table (reads are pure, so this does not perturb the model)
             if not vs:
                 for i in (0, 1):
                     for pn in ('a', 'b', 'c'):
                         v = getattr(w['i'][i], pn)
-                        key = (GENS[pn], model['time'])
+                        key = (GENS[pn], model['time'], model['gseed'])
                         if key in model['table'] and model['table'][key] != v:
                             vs.append(V('pure-function-of-time', 'history %r then reading %s of instance %d at time %r gave %r; first produced value for that name/seed/time: %r' % (
                                 history, pn, i, model['time'], v, model['table'][key]), gen=pn, after='probe'))
